@@ -6,6 +6,7 @@
       "PAR" \par   "LINE" \line   "TAB" \tab   "PAGE" \page   "SBK" \sbkpage
       "CW" \b   "CWN" \fs24   "CWNEG" \li-120                      (formatting control words: no text)
       "HEX" \'e9   "UNI" \u233?   "ESCB" \{                         (one character each)
+      "HEXBAD" \'zz (not two hex digits: nothing)     "UL" \ul   "UC" \uc1   (control words that begin with the letter u)
       "OPEN" {    "OPENCW" {\b     "OPENSTAR" {\*\xdest    "OPENNAMED" {\pict        "CLOSE" }
    Output atoms <<kind, n>>:  <<"w", id>>  <<"c", 1>> (e acute)  <<"c", 2>> (an opening brace)  <<"s", 0>> blank / tab
                               <<"n", 0>> line break.
@@ -13,6 +14,9 @@
    Deviations (as built / before a fix):
       "Rtf!RawNewlineIsText"            a raw LF of the source is copied into the text (RTF: line ends in the source
                                         are not text; writers wrap long lines, also inside a word)      KF-C02-13, open
+      "Rtf!UControlWordLeaks"           a control word that starts with u but is no \uN escape (\ul, \ulnone, \uc1, \up6)
+                                        loses only its first two characters: the rest ("l", "c1") and the delimiter
+                                        blank become text                                               KF-C02-17, open
       "Rtf!NestedDestinationEndsSkip"   a destination nested in a skipped one restarts the skip bookkeeping, so the
                                         outer destination is no longer skipped after the inner one closes  (fixed)   *)
 EXTENDS Naturals, Sequences, FiniteSets, TLC
@@ -61,7 +65,10 @@ Step(st, tok) ==
            [] k = "CR"    -> st
            [] k \in {"PAR", "LINE"} -> Emit(st, <<"n", 0>>)
            [] k \in {"PAGE", "SBK"} -> Flush(st)
-           [] k \in {"CW", "CWN", "CWNEG"} -> st
+           [] k \in {"CW", "CWN", "CWNEG", "HEXBAD"} -> st
+           [] k = "UL"    -> IF "Rtf!UControlWordLeaks" \in WalkDev THEN Emit(Emit(st, <<"c", 1108>>), <<"s", 0>>) ELSE st
+           [] k = "UC"    -> IF "Rtf!UControlWordLeaks" \in WalkDev
+                             THEN Emit(Emit(Emit(st, <<"c", 1099>>), <<"c", 1049>>), <<"s", 0>>) ELSE st
            [] k \in {"HEX", "UNI"} -> Emit(st, <<"c", 1>>)
            [] k = "ESCB"  -> Emit(st, <<"c", 2>>)
 
